@@ -445,4 +445,12 @@ theorem generated_comb_files_and_routing :
       sameSet row.2.1 (docCombFiles row.1) = true ∧ ∀ pr ∈ row.2.2, pr.2 = docCombRoute row.1 pr.1 := by
   decide
 
+/-- **paired `{name}` with adapters for R2 only: every pair is 'unknown'** (the file is named after the last match on R1, and R1 is not searched) — both
+    mates in the `unknown` pair of files, or nowhere with `--discard-untrimmed`, whatever was found in R2 -/
+theorem generated_r2_only_is_unknown :
+    ∀ row ∈ Generated.demuxR2Only,
+      sameSet row.2.1 ((restName row.1).flatMap fun k => [k ++ ".1", k ++ ".2"]) = true ∧
+      ∀ pr ∈ row.2.2, pr.2 = (restName row.1).flatMap fun k => [k ++ ".1", k ++ ".2"] := by
+  decide
+
 end Cutadapt.C15
